@@ -10,5 +10,6 @@ CONSTANTS
   WithAux = TRUE
   MinCalls = 8
   WithAsm = FALSE
+  WithRefusals = FALSE
 INVARIANTS WellFormedInv IndexExactInv ContentInv CrcInv StatsInv LiveStatsInv Export
 CHECK_DEADLOCK FALSE
